@@ -429,8 +429,13 @@ class Timeline:
             elif c == "tagstree":
                 m = RE_TT.search(p)
                 key = (m.group(1), m.group(3))
-                if o["k"] == "truncate":
-                    self.tt.setdefault(key, []).append([j, None])
+                if o["k"] == "create" and key not in self.tt:
+                    self.tt[key] = [[j, None]]            # first creation: the tree file exists and is empty until its first write
+                elif o["k"] == "truncate":
+                    if self.tt.get(key) and self.tt[key][-1][1] is None:
+                        pass                              # still the window opened by the creation
+                    else:
+                        self.tt.setdefault(key, []).append([j, None])
                 elif o["k"] == "write" and self.tt.get(key):
                     self.tt[key][-1][1] = j
         # shard / tsid of every series from the recorded answers
